@@ -69,6 +69,7 @@ func BFS(o BFSOpts, build func(s *Sched) World) *ExploreResult {
 		nontriv  bool
 		viol     []Violation
 		points   []Point
+		npts     int // choice points before the closure
 		steps    int
 	}
 	run := func(ops []string, choices []int) runOut {
@@ -84,13 +85,15 @@ func BFS(o BFSOpts, build func(s *Sched) World) *ExploreResult {
 			r.viol = w.Take()
 			r.poisoned = w.Poisoned()
 			r.nontriv = w.Nontrivial()
+			r.npts = len(s.Points)
 			if !r.poisoned {
+				r.key = w.Key()
+				r.enabled = w.Ops()
+				r.npts = len(s.Points)
 				if o.Closure != nil {
 					o.Closure(w, s)
 					r.viol = append(r.viol, w.Take()...)
 				}
-				r.key = w.Key()
-				r.enabled = w.Ops()
 			}
 		})
 		r.points = s.Points
@@ -127,7 +130,7 @@ func BFS(o BFSOpts, build func(s *Sched) World) *ExploreResult {
 		return res
 	}
 	seen[root.key] = struct{}{}
-	frontier := []hnode{{enabled: root.enabled, choices: choicesOf(root.points)}}
+	frontier := []hnode{{enabled: root.enabled, choices: choicesOf(root.points)[:root.npts]}}
 	capped := func() bool {
 		if o.MaxStates > 0 && len(seen) >= o.MaxStates {
 			st.Capped, st.CapReason = true, "max_states"
@@ -165,9 +168,23 @@ depthLoop:
 					st.Transitions++
 					st.Steps += r.steps
 					st.Points += len(r.points)
-					full := choicesOf(r.points)
+					all := choicesOf(r.points)
+					full := all[:r.npts]
 					if vi == 0 && o.DevPerOp > 0 {
-						for i := len(n.choices); i < len(r.points); i++ {
+						// deviations inside the closure only produce verdicts, no successors
+						for i := r.npts; i < len(r.points); i++ {
+							for alt := 1; alt < r.points[i].N; alt++ {
+								c := append(append([]int{}, all[:i]...), alt)
+								cr := run(ops, c)
+								st.Execs++
+								for _, v := range cr.viol {
+									addV(v, ops, choicesOf(cr.points))
+								}
+							}
+						}
+					}
+					if vi == 0 && o.DevPerOp > 0 {
+						for i := len(n.choices); i < r.npts; i++ {
 							for alt := 1; alt < r.points[i].N; alt++ {
 								c := append(append([]int{}, full[:i]...), alt)
 								vars = append(vars, variant{c})
@@ -175,7 +192,7 @@ depthLoop:
 						}
 					}
 					for _, v := range r.viol {
-						addV(v, ops, full)
+						addV(v, ops, all)
 					}
 					if r.poisoned {
 						st.Pruned++
